@@ -35,6 +35,6 @@ if ! git -C $MW apply "$PATCH"; then echo "PATCH DOES NOT APPLY"; exit 3; fi
 rc=0
 for P in "$@"; do
   echo "=== $P on mutant $(basename $(dirname $PATCH))"
-  (cd $MV && VERIF_REPO=$MW ./check $P > $MV/.build/last_$P.log 2>&1; grep -E "VIOLATION|quick:|thorough:" $MV/.build/last_$P.log | cut -c1-260 | head -4; grep -E "DISAGREE|ORACLE-FAIL|AUDIT|error" -A1 $MV/.build/last_$P.log | cut -c1-260 | head -8)
+  (cd $MV && VERIF_REPO=$MW ./check $P > $MV/.build/last_$P.log 2>&1; grep -E "quick:|thorough:" $MV/.build/last_$P.log | cut -c1-260 | head -2; grep -E "VIOLATION" $MV/.build/last_$P.log | cut -c1-260 | head -4; grep -E "DISAGREE|ORACLE-FAIL|AUDIT|error" -A1 $MV/.build/last_$P.log | cut -c1-260 | head -8)
 done
 git -C $MW checkout -q -- .
